@@ -456,6 +456,7 @@ def kindName : Step → String
   | .rdSock => "rd:sock" | .chkSock => "rd:sock"
   | .rdClosed => "rd:closed" | .retIfClosed => "rd:closed" | .chkClosed => "rd:closed"
   | .retIfClosing => "rd:closing" | .chkClosing => "rd:closing" | .brIfClosing _ => "rd:closing"
+  | .ldClosing => "rd:closing" | .chkBoth => "rd:closed"
   | .compress _ => "z:compress" | .flush => "z:flush" | .zreset => "z:reset"
   | .acquire => "acq" | .release => "rel"
   | .write1 _ => "w1" | .write2 _ => "w2"
